@@ -91,9 +91,39 @@ fn file_round_trip(ctx: &mut Ctx, l: &Logical, bytes: &[u8], stored: Option<[i32
                 }
             });
             match opened {
-                Err(p) => ctx.panic("PMTiles::from_reader", &p, mat),
-                Ok(Err(e)) => ctx.violation("write→read", "tiles", "tile set or tile content differs after a round trip through a file", &e, mat),
+                Err(p) => ctx.panic("PMTiles::from_reader", &p, mat.clone()),
+                Ok(Err(e)) => ctx.violation("write→read", "tiles", "tile set or tile content differs after a round trip through a file", &e, mat.clone()),
                 Ok(Ok(())) => ctx.count("file_round_trips_equal"),
+            }
+            // two archive objects opened on ONE file handle (`&File`: they share the OS file position), looked up alternately in
+            // storage order: an object must not assume that the stream still stands where its own last read left it
+            let shared = guard(|| -> Result<u64, String> {
+                let f = std::fs::File::open(&path).map_err(|e| e.to_string())?;
+                let mut a = PMTiles::from_reader(&f).map_err(|e| format!("open failed: {e}"))?;
+                // (an open reads from the stream's current position: rewind the shared handle for the second object)
+                std::io::Seek::seek(&mut &f, std::io::SeekFrom::Start(0)).map_err(|e| e.to_string())?;
+                let mut b = PMTiles::from_reader(&f).map_err(|e| format!("open failed: {e}"))?;
+                let mut n = 0;
+                let ids: Vec<u64> = l.tiles.keys().take(400).copied().collect();
+                for (k, id) in ids.iter().enumerate() {
+                    // object A walks the tiles in storage order; between any two of its lookups object B reads somewhere else
+                    let got = a.get_tile_by_id(*id).map_err(|e| e.to_string())?;
+                    if got.as_deref() != Some(l.tiles[id].as_slice()) {
+                        return Err(format!("tile {id} (lookup {k}, object A) differs from the content added"));
+                    }
+                    let other = ids[(k * 7 + 3) % ids.len()];
+                    let got = b.get_tile_by_id(other).map_err(|e| e.to_string())?;
+                    if got.as_deref() != Some(l.tiles[&other].as_slice()) {
+                        return Err(format!("tile {other} (lookup {k}, object B) differs from the content added"));
+                    }
+                    n += 2;
+                }
+                Ok(n)
+            });
+            match shared {
+                Err(p) => ctx.panic("PMTiles::get_tile_by_id", &p, mat),
+                Ok(Err(e)) => ctx.violation("write→read", "tiles", "two archive objects sharing one file handle return wrong tile bytes", &e, mat),
+                Ok(Ok(n)) => ctx.add("lookups_through_a_shared_file_handle", n),
             }
         }
     }
@@ -229,6 +259,27 @@ pub fn run(ctx: &mut Ctx) {
         }
         ctx.begin(i);
         let mut l = logical_for(ctx, "c01", i);
+        if i % 40 == 26 {
+            // tile ids at the very top of u64 (single and as the end of a run)
+            let c = std::rc::Rc::new(vec![0x7Eu8; 1 + (i % 5) as usize]);
+            let d = std::rc::Rc::new(vec![0x7Du8, 1, 2]);
+            match (i / 40) % 3 {
+                0 => {
+                    l.tiles.insert(u64::MAX, c);
+                }
+                1 => {
+                    for id in [u64::MAX - 2, u64::MAX - 1, u64::MAX] {
+                        l.tiles.insert(id, c.clone());
+                    }
+                }
+                _ => {
+                    l.tiles.insert(u64::MAX - 1, d);
+                    l.tiles.insert(u64::MAX, c);
+                }
+            }
+            l.class.push_str("/ids-up-to-u64-max");
+            ctx.count("archives_with_tile_id_u64_max");
+        }
         if i % 160 == 150 {
             // tiles above 2^24 bytes that are still reader-backed when the archive is written (two-session build)
             let len = (1usize << 24) + 4097 + (i as usize % 1000);
